@@ -24,16 +24,32 @@ fn run(r: &mut Run) -> Result<(), MachineryError> {
     r.space(space, |seq, cx| {
         let text = build(seq, &alpha);
         cx.set_input(&text);
+        check_text(&text, &gaps, cx);
+    })?;
+    // the escape grammar's byte ranges (text alphabets only carry sequences ending in 'm')
+    r.range("C20/escape-grammar-scan", "for every byte b in 0x21..=0x7F the texts \"ESC[1bX12 345\" and \"ESC]8bX BEL 12 345\" through the same layout oracle (b = space excluded: the separators are specified to split at spaces, also inside a sequence)", 95 * 2, move |i, cx| {
+        let b = (0x21 + (i % 95)) as u8 as char;
+        let text = if i / 95 == 0 { format!("\x1b[1{b}X12 345") } else { format!("\x1b]8{b}X\x0712 345") };
+        cx.seq = idx_seq(i);
+        cx.set_input(&text);
+        check_text(&text, &gaps, cx);
+    })
+}
+
+fn check_text(text: &str, gaps: &[(&'static str, &'static str, &'static str)], cx: &mut Cx) {
+    {
+        let gaps = gaps.iter().copied();
+
         for cols in 1..=4usize {
             for total in 0..=12usize {
-                for (l, m, rg) in gaps {
+                for (l, m, rg) in gaps.clone() {
                     for bw in [true, false] {
                         for alg in algs_default() {
                             cx.eval();
                             let cfg = Cfg { width: total, sep: *seps().last().unwrap(), alg, spl: Spl::Hyphen, bw, ii: "", si: "", crlf: false };
                             let o = cfg.opts();
                             let d = || format!("columns={} total_width={} gaps=({:?},{:?},{:?}) break_words={} algorithm={:?}", cols, total, l, m, rg, bw, alg);
-                            let rows = match cx.guard_quiet(|| wrap_columns(&text, cols, o.clone(), l, m, rg)) {
+                            let rows = match cx.guard_quiet(|| wrap_columns(text, cols, o.clone(), l, m, rg)) {
                                 Some(x) => x,
                                 None => {
                                     let msg = cx.last_panic();
@@ -45,7 +61,7 @@ fn run(r: &mut Run) -> Result<(), MachineryError> {
                             cx.outcome(&rows);
                             let inner = total.saturating_sub(ref_width(l)).saturating_sub(ref_width(rg)).saturating_sub(ref_width(m) * (cols - 1));
                             let colw = std::cmp::max(inner / cols, 1);
-                            let lines = match cx.guard(|| wrap(&text, o.clone().width(colw))) {
+                            let lines = match cx.guard(|| wrap(text, o.clone().width(colw))) {
                                 Some(x) => x,
                                 None => continue,
                             };
@@ -115,5 +131,5 @@ fn run(r: &mut Run) -> Result<(), MachineryError> {
                 }
             }
         }
-    })
+    }
 }
